@@ -262,22 +262,28 @@ K("c05_insert_block_hash_b64", "C05", M_ALG, cfg="release", tiers=("thorough",),
   unwindset=alg_rules(n_insert=66), shape="BMC", bound="block hash <= 64 symbols (full) into a 72-byte buffer",
   enc=["insert_block_hash_into_bytes::<64>"], assumptions=[ASSUME_SYM])
 for (nm, tiers, cap, cost, m) in [("c05_store_short_raw_m8", ("quick", "thorough"), (480, 1200), 200, 8),
-                                  ("c05_store_long_norm_m8", ("quick", "thorough"), (480, 1200), 200, 8),
-                                  ("c05_store_short_raw_full", ("thorough",), (0, 2400), 900, 64),
-                                  ("c05_store_long_raw_full", ("thorough",), (0, 2400), 900, 64),
-                                  ("c05_store_long_norm_full", ("thorough",), (0, 2400), 900, 64)]:
+                                  ("c05_store_long_norm_m8", ("quick", "thorough"), (480, 1200), 200, 8)]:
     K(nm, "C05", M_HASH, cfg="release", tiers=tiers, cap=cap, cost=cost, mem=12,
       unwindset=alg_rules(n_insert=m + 2), shape="BMC",
       bound="store_into_bytes: block hashes <= %d symbols, buffer of every length 0..=text+8" % m,
       enc=["FuzzyHashData::store_into_bytes", "len_in_str", "MAX_LEN_IN_STR", "insert_block_hash_into_bytes"],
       assumptions=[ASSUME_SYM, "object valid (spec_valid)"])
-for nm in ("c05_alloc_forms_short_raw_m4", "c05_alloc_forms_long_norm_m4"):
-    K(nm, "C05", M_HASH, cfg="release", tiers=("thorough",), cap=(0, 2400), cost=900, mem=12,
-      unwindset=alg_rules(n_insert=6), shape="BMC",
-      bound="to_string / String::from / Display: block hashes <= 4 symbols",
-      outside="allocating paths with longer block hashes",
-      enc=["FuzzyHashData::to_string", "From<FuzzyHashData> for String", "Display::fmt"],
-      assumptions=[ASSUME_SYM, "object valid (spec_valid)"])
+for S in ("short_raw", "long_raw", "long_norm"):
+    for (sfx, m, cap) in [("full", 64, 1500), ("m32", 32, 1500), ("m16", 16, 1200)]:
+        K("c05_store_%s_%s" % (S, sfx), "C05", M_HASH, cfg="release", tiers=("thorough",), cap=(0, cap), cost=900, mem=12,
+          unwindset=alg_rules(n_insert=m + 2), shape="BMC", ladder="c05_store_" + S, rung=m,
+          bound="store_into_bytes: block hashes <= %d symbols%s, buffer of every length 0..=text+8"
+                % (m, " (full capacity)" if sfx == "full" else ""),
+          enc=["FuzzyHashData::store_into_bytes", "len_in_str", "MAX_LEN_IN_STR", "insert_block_hash_into_bytes"],
+          assumptions=[ASSUME_SYM, "object valid (spec_valid)"])
+for S in ("short_raw", "long_norm"):
+    for m in (4, 1):
+        K("c05_alloc_forms_%s_m%d" % (S, m), "C05", M_HASH, cfg="release", tiers=("thorough",), cap=(0, 1200), cost=900, mem=12,
+          unwindset=alg_rules(n_insert=m + 2), shape="BMC", ladder="c05_alloc_" + S, rung=m,
+          bound="to_string / String::from / Display: block hashes <= %d symbols" % m,
+          outside="allocating paths with longer block hashes",
+          enc=["FuzzyHashData::to_string", "From<FuzzyHashData> for String", "Display::fmt"],
+          assumptions=[ASSUME_SYM, "object valid (spec_valid)"])
 
 PROP_META["C04"] = {
     "technique": "Kani/CBMC BMC of the parser kernels and of the from_bytes drivers of all six types on fully "
@@ -519,8 +525,12 @@ K("c19_fnv_forms_agree", "C19", M_FNV, shape="BMC", bound="arbitrary state, <= 3
   enc=["PartialFNVHash::update", "update_by_iter", "AddAssign x3"], cap=(300, 600), cost=20)
 K("c19_roll_forms_agree", "C19", M_ROLL, shape="BMC", bound="ARBITRARY internal state, <= 3 bytes, all five update forms",
   enc=["RollingHash::update", "update_by_iter", "update_by_byte", "AddAssign x3"], cap=(300, 900), cost=60)
+for f, what in enumerate(["index", "h1", "h2", "h3", "window"]):
+    K("c19_roll_slice_fixed8_f%d" % f, "C19", M_ROLL, cfg="release", shape="BMC", cap=(300, 600), cost=30,
+      bound="ARBITRARY internal state, every 8-byte buffer: update(&buf) leaves the same %s as eight update_by_byte calls" % what,
+      enc=["RollingHash::update", "update_by_byte"])
 for (kk, tiers, cap, cost) in [(2, ("quick", "thorough"), (600, 900), 60), (4, ("thorough",), (0, 1800), 600),
-                               (9, ("thorough",), (0, 2400), 2400)]:
+                               (9, ("thorough",), (0, 900), 2400)]:
     K("c19_roll_value_from_new_k%d" % kk, "C19", M_ROLL, cfg="release", shape="BMC", tiers=tiers, cap=cap, cost=cost,
       ladder="c19_roll_from_new" if kk > 2 else None, rung=kk,
       bound="from new(): every input of <= %d bytes, value == definition over the trailing (zero padded) 7-byte window" % kk,
@@ -797,6 +807,11 @@ for (nm, M_, tiers, cap, cost) in [("c17_target_init_short_m6", 6, ("quick", "th
       bound="FuzzyHashCompareTarget::init_from on an ARBITRARY target and From<hash>: block hashes <= %d symbols" % M_,
       enc=["FuzzyHashCompareTarget::init_from", "init_from_partial", "From<&FuzzyHashData>", "From<FuzzyHashData>", "full_eq"],
       assumptions=[ASSUME_SYM, "hash valid (spec_valid)"])
+for S in ("short", "long"):
+    K("c17_target_init_lite_%s_m3" % S, "C17", M_CMP, cfg="release", cap=(600, 1200), cost=100, mem=12,
+      unwindset=pa_rules(n_init=4) + [("@memcmp.0", 520)], shape="inductive step",
+      bound="FuzzyHashCompareTarget::init_from on an ARBITRARY target == reference target: block hashes <= 3 symbols (%s form)" % S,
+      enc=["FuzzyHashCompareTarget::init_from", "init_from_partial"], assumptions=[ASSUME_SYM, "hash valid (spec_valid)"])
 K("c17_target_queries_m8", "C17", M_CMP, cfg="release", cap=(900, 2400), cost=400, mem=14,
   unwindset=pa_rules(n_init=9) + [("@memcmp.0", 520)], shape="BMC",
   bound="is_valid / is_equiv / clone on the reference target, block hashes <= 8 symbols",
@@ -995,7 +1010,7 @@ add(Q("c19_roll_step_smt", "C19", harness="roll_step", engine="smt", cap=(60, 12
             "seven bytes (zero padded)",
       enc=["RollingHash::update_by_byte (MIR)", "RollingHash::value (MIR)"],
       assumptions=["InvR: h1 = sum, h2 = position-weighted sum, h3 = shift-5-xor fold of the window read in age order "
-                   "(established by new(): all zero, checked by c19_roll_value_from_new_k9)",
+                   "(established by new(): all zero, checked by c19_roll_value_from_new_k2 / _k4)",
                    "rustc MIR (-Zunpretty=mir, overflow checks on) is the program; translator limited to the listed subset"]))
 add(Q("c08_lcs_step_smt", "C08", harness="lcs_step", engine="smt", cap=(120, 300), cost=60,
       shape="inductive step",
@@ -1124,6 +1139,10 @@ K("c06_dual_route_kernel32_b12", "C06", M_DUAL, fn="c07_kernel32_b12", cfg="rele
   unwindset=dual_rules(n_in=13, n_rle=9), shape="BMC",
   bound="normalized part produced by the dual route (compress ::<32,8>) == spec_norm, raw length <= 12",
   enc=["compress_block_hash_with_rle::<32,8>"], assumptions=[ASSUME_SYM])
+K("c02_reused_target_init_lite_m3", "C02", M_CMP, fn="c17_target_init_lite_short_m3", cfg="release", cap=(600, 1200), cost=100, mem=12,
+  unwindset=pa_rules(n_init=4) + [("@memcmp.0", 520)], shape="inductive step",
+  bound="the reusable comparison target: init_from on an ARBITRARY (previously used) target == the reference target, block hashes <= 3",
+  enc=["FuzzyHashCompareTarget::init_from"], assumptions=[ASSUME_SYM])
 K("c02_reused_target_init_m6", "C02", M_CMP, fn="c17_target_init_short_m6", cfg="release", cap=(900, 2400), cost=400, mem=14,
   unwindset=pa_rules(n_init=7) + [("@memcmp.0", 520)], shape="inductive step",
   bound="the reusable comparison target: init_from on an ARBITRARY (previously used) target == a fresh target, block hashes <= 6",
